@@ -392,9 +392,9 @@ func (a *align) RemoveCharacterSites(c []uint8, cutoff float64, ends bool, ignor
 	firstcontinuous := -1
 	lastcontinuous := a.Length()
 	lenBk := a.Length()
-	all := ALL_AMINO
+	all := ALL_NUCLE
 	if a.Alphabet() == AMINOACIDS {
-		all = ALL_NUCLE
+		all = ALL_AMINO
 	}
 	allc := unicode.ToLower(all)
 	//log.Println("Before computing toremove")
